@@ -20,8 +20,9 @@
 #include "vx_stubs.hpp"
 int vx_seq, vx_resolve_at, vx_file_at, vx_url_at, vx_open_at; const void* vx_opened; const XMLCh* vx_file_base; const XMLCh* vx_file_rel;
 bool vx_seturl_ok, vx_relative, vx_invalidchar, vx_open_null;
-static const XMLCh SYS[] = { 's', 0 }, BASE[] = { 'b', 0 }, PUB[] = { 'p', 0 }, EXPANDED[] = { 'e', 0 };
-const XMLCh* vx_last_sysid = BASE;
+static const XMLCh SYS[] = { 's', 0 }, BASE[] = { 'b', 0 }, LAST[] = { 'l', 0 }, NOBASE[] = { 0 }, PUB[] = { 'p', 0 }, EXPANDED[] = { 'e', 0 };
+const XMLCh* vx_last_sysid = LAST;      // system id of the entity that contains the reference
+const XMLCh* vx_seturl_base;
 static bool h_expand, h_return_src; static const XMLCh* seen_sys; static const XMLCh* seen_base; static XMLCh seen_sys0, seen_base0; static const Locator* seen_loc;
 struct Src : InputSource { Src(MemoryManager* m) : InputSource(m) {} BinInputStream* makeStream() const { return 0; } };
 static Src* g_src;
@@ -44,10 +45,17 @@ extern "C" void harness_createreader(void) {
   vx_seturl_ok = nondet_bool(); vx_relative = nondet_bool(); vx_invalidchar = nondet_bool(); vx_open_null = nondet_bool();
   mgr->fEntityHandler = haveHandler ? &hd : 0; mgr->fStandardUriConformant = conformant; mgr->fMemoryManager = &mm; mgr->fNextReaderNum = 7; mgr->fXMLVersion = XMLReader::XMLV1_0;
   InputSource* filled = (InputSource*)&hd;   // garbage: must be overwritten
+#ifdef WITH_BASE
+  unsigned bk = nondet_u8() % 3; const XMLCh* baseArg = bk == 0 ? BASE : bk == 1 ? NOBASE : 0;    // explicit base, empty base, no base
+  XMLCh wantBase = bk == 0 ? 'b' : 'l';     // an absent/empty base falls back to the entity containing the reference
+  XMLCh wantSeenBase = bk == 0 ? 'b' : 0;
+#else
+  XMLCh wantBase = 'l'; XMLCh wantSeenBase = 'l';
+#endif
   XMLReader* r = 0; bool threw = false, malformed = false;
   try {
 #ifdef WITH_BASE
-    r = mgr->createReader(BASE, SYS, PUB, false, XMLReader::RefFrom_NonLiteral, XMLReader::Type_General, XMLReader::Source_External, filled, false, 100, disableDefault);
+    r = mgr->createReader(baseArg, SYS, PUB, false, XMLReader::RefFrom_NonLiteral, XMLReader::Type_General, XMLReader::Source_External, filled, false, 100, disableDefault);
 #else
     r = mgr->createReader(SYS, PUB, false, XMLReader::RefFrom_NonLiteral, XMLReader::Type_General, XMLReader::Source_External, filled, false, 100, disableDefault);
 #endif
@@ -58,7 +66,7 @@ extern "C" void harness_createreader(void) {
   if (haveHandler) {
     VX_ASSERT(vx_resolve_at == 1, "the application's resolver is consulted first, before any source is built");
     VX_ASSERT(seen_sys0 == (h_expand ? 'e' : 's'), "the resolver sees the system id as expanded by the handler (or unchanged)");
-    VX_ASSERT(seen_base0 == 'b', "the resolver sees the base URI of the entity containing the reference");
+    VX_ASSERT(seen_base0 == wantSeenBase, "the resolver sees the base URI against which the reference must be resolved");
     VX_ASSERT(seen_loc == (const Locator*)mgr, "the resolver gets the reader manager as locator");
   } else VX_ASSERT(vx_resolve_at == 0, "no handler, no resolution call");
   if (resolved) {
@@ -72,11 +80,12 @@ extern "C" void harness_createreader(void) {
   } else if (!isUrl) {
     if (conformant) { VX_ASSERT(malformed && vx_file_at == 0 && vx_url_at == 0 && vx_open_at == 0, "standard-URI-conformant mode: a malformed or relative URL is an error, never a file fallback"); VX_REACH("conformant mode rejects a non-URL"); }
     else { VX_ASSERT(!threw && vx_file_at != 0 && vx_url_at == 0, "a system id that is not an absolute URL is opened as a local file");
-           VX_ASSERT(vx_file_base != 0 && vx_file_base[0] == 'b', "the file source is resolved against the base of the enclosing entity"); }
+           VX_ASSERT(vx_file_base != 0 && vx_file_base[0] == wantBase, "the file source is resolved against the given base, or else against the entity containing the reference"); }
   } else {
     if (conformant && vx_invalidchar) VX_ASSERT(malformed && vx_url_at == 0 && vx_file_at == 0, "standard-URI-conformant mode rejects URLs with invalid characters");
     else { VX_ASSERT(!threw && vx_url_at != 0 && vx_file_at == 0, "an absolute URL is opened through a URL source"); VX_REACH("URL source"); }
   }
+  if (!resolved && !disableDefault) VX_ASSERT(vx_seturl_base != 0 && vx_seturl_base[0] == wantBase, "the URL is resolved against the given base, or else against the entity containing the reference");
   if (!threw && r) { VX_ASSERT(r->fReaderNum == 7 && mgr->fNextReaderNum == 8, "the new reader gets the next reader number"); }
   if (!threw && vx_open_at && vx_open_null) VX_ASSERT(r == 0, "a source that cannot be opened yields a null reader");
 }
